@@ -22,6 +22,7 @@ type regoPathResultInternal struct {
 	variable      string
 	counter       *int
 	fullNodes     bool // the reached values are the node objects themselves rather than the values found in the parent
+	idStrings     bool // the reached values are the bare @id strings of the nodes (last step through a custom property)
 }
 
 type traversal struct {
@@ -107,14 +108,21 @@ func traversePath(path path.PropertyPath, variable string, fetchNodes bool, iriE
 	traversed := traverse(path, t, fetchNodes, iriExpander)
 	// An inverse step reaches node objects while a forward step reaches the {"@id": ...} links stored in the parent. When
 	// alternatives of both kinds are aggregated, a node reached both ways must still be a single value of the set.
+	// A step through a custom property reaches node objects too (or, as the last step, their bare @id strings).
 	mixed := false
 	for _, tr := range traversed {
-		mixed = mixed || tr.fullNodes != traversed[0].fullNodes
+		mixed = mixed || tr.fullNodes != traversed[0].fullNodes || tr.idStrings != traversed[0].idStrings
 	}
 	for _, tr := range traversed {
 		effectiveRego := tr.rego
 		if mixed && tr.fullNodes {
 			effectiveRego = append(effectiveRego, fmt.Sprintf("nodes = {\"@id\": %s[\"@id\"]}", tr.variable))
+			tr.rego = effectiveRego
+			acc = append(acc, tr)
+			continue
+		}
+		if mixed && tr.idStrings {
+			effectiveRego = append(effectiveRego, fmt.Sprintf("nodes = {\"@id\": %s}", tr.variable))
 			tr.rego = effectiveRego
 			acc = append(acc, tr)
 			continue
@@ -337,6 +345,8 @@ func traverseCustomProperty(property path.Property, t traversal, fetchNodes bool
 		paths:         append(t.paths, property.Iri),
 		counter:       t.counter,
 		variable:      binding,
+		fullNodes:     property.Inverse || fetchNodes,
+		idStrings:     !property.Inverse && !fetchNodes,
 	}
 
 	return []regoPathResultInternal{r}
